@@ -7,7 +7,7 @@ NAME="$1"; CHANGE="$2"; shift 2
 export GOFLAGS=-mod=mod GOPROXY=off GOSUMDB=off GOTOOLCHAIN=local
 HERE="$(cd "$(dirname "$0")/.." && pwd)"
 SCR="$(mktemp -d /tmp/vmut-XXXXXX)"
-trap 'rm -rf "$SCR"' EXIT
+trap '[ -n "${KEEP:-}" ] && echo "kept $SCR" || rm -rf "$SCR"' EXIT
 rsync -a --exclude .git /repo/ "$SCR/repo/"
 case "$CHANGE" in
   -R:*) git -C /repo show "${CHANGE#-R:}" | (cd "$SCR/repo" && patch -R -p1 -s) || { echo "$NAME: cannot revert"; exit 2; } ;;
